@@ -2,6 +2,7 @@ package interp
 
 import (
 	"fmt"
+	"unicode/utf8"
 
 	"github.com/benhoyt/goawk/parser"
 )
@@ -30,12 +31,13 @@ func verifParse(src string) *parser.Program {
 // ---- engine-side models of the regexp package on symbolic text (native replay uses the real package) ----
 //
 // Supported patterns: an optional ^ followed by atoms, an atom being a literal (non-meta) byte
-// optionally followed by +; adjacent atoms use different bytes, so the greedy match is the
+// optionally followed by + or *; adjacent atoms use different bytes, so the greedy match is the
 // leftmost-longest one.  Anything else panics (no model).
 
 type verifAtom struct {
 	c    byte
 	plus bool
+	star bool
 }
 
 func verifRegexAtoms(pattern string) (atoms []verifAtom, anchored bool, ok bool) {
@@ -55,6 +57,9 @@ func verifRegexAtoms(pattern string) (atoms []verifAtom, anchored bool, ok bool)
 		if i < len(pattern) && pattern[i] == '+' {
 			a.plus = true
 			i++
+		} else if i < len(pattern) && pattern[i] == '*' {
+			a.star = true
+			i++
 		}
 		if len(atoms) > 0 && atoms[len(atoms)-1].c == c {
 			return nil, false, false
@@ -67,6 +72,12 @@ func verifRegexAtoms(pattern string) (atoms []verifAtom, anchored bool, ok bool)
 // verifRegexMatchAt returns the end of the match starting exactly at i, or -1
 func verifRegexMatchAt(atoms []verifAtom, s []byte, i int) int {
 	for _, a := range atoms {
+		if a.star {
+			for i < len(s) && s[i] == a.c {
+				i++
+			}
+			continue
+		}
 		if i >= len(s) || s[i] != a.c {
 			return -1
 		}
@@ -124,17 +135,31 @@ func verifRegexFindIndex(pattern string, data []byte) []int {
 	return verifRegexFindFrom(pattern, data, 0)
 }
 
-// model of (*regexp.Regexp).FindAllStringIndex(s, -1) (all patterns here match at least one byte)
+// model of (*regexp.Regexp).FindAllStringIndex(s, -1), which is also the set of matches ReplaceAllStringFunc
+// replaces: an empty match directly after the previous match is not a match, and after an empty match the search
+// moves on by one character
 func verifRegexFindAll(pattern, s string, n int) [][]int {
 	var out [][]int
-	from := 0
+	from, prevEnd := 0, -1
 	for from <= len(s) {
 		loc := verifRegexFindFrom(pattern, []byte(s), from)
 		if loc == nil {
 			break
 		}
-		out = append(out, loc)
-		from = loc[1]
+		if loc[1] == loc[0] {
+			if loc[0] != prevEnd {
+				out = append(out, loc)
+			}
+			if loc[0] >= len(s) {
+				break
+			}
+			_, w := utf8.DecodeRuneInString(s[loc[0]:])
+			from = loc[0] + w
+		} else {
+			out = append(out, loc)
+			from = loc[1]
+		}
+		prevEnd = loc[1]
 	}
 	return out
 }
